@@ -748,6 +748,8 @@ def run_arr(M, c):
             fails.append(f"fff_array_set into an int32 cell stores {stored[-1]} for {t}: not a nearest integer")
     lib.fff_array_delete(fc)
     lines.append("fffround " + plist(rv)); impl.append(("nats", stored))
+    # FFF_ROUND as regenerated from fff_base.h (textual macro expansion)
+    lines.append("kround " + plist(rv)); impl.append(("nats", stored))
     lib.fff_array_delete(fa); lib.fff_array_delete(fb)
     neg = any(s < 0 for s in A.strides) or any(s < 0 for s in B.strides)
     tags = ["views-arr", f"dt={td}<-{ts}", "la=" + c["la"]] + (["neg-stride"] if neg else [])
